@@ -67,6 +67,52 @@ pub fn acc_of<M: ShortMessage>(m: &M) -> Acc {
     }
 }
 
+/// The same vector obtained with method-call syntax on the CONCRETE type: an inherent method of
+/// the same name would shadow the trait method here (and only here).
+macro_rules! acc_concrete {
+    ($m:expr) => {{
+        let m = $m;
+        Acc {
+            ty: m.r#type(),
+            sup: m.super_type(),
+            main: m.main_category(),
+            channel: m.channel(),
+            key_number: m.key_number(),
+            velocity: m.velocity(),
+            controller_number: m.controller_number(),
+            control_value: m.control_value(),
+            program_number: m.program_number(),
+            pressure_amount: m.pressure_amount(),
+            pitch_bend_value: m.pitch_bend_value(),
+            is_note_on: m.is_note_on(),
+            is_note_off: m.is_note_off(),
+            is_note: m.is_note(),
+            structured: m.to_structured(),
+        }
+    }};
+}
+
+fn concrete_vs_trait(s: u8, d1: u8, d2: u8, rep: &mut Report) {
+    let r = api("ShortMessage methods called on the concrete types", || {
+        let raw = RawShortMessage::from_bytes((s, u7(d1), u7(d2))).ok()?;
+        let st = StructuredShortMessage::from_bytes((s, u7(d1), u7(d2))).ok()?;
+        let bytes_r = (raw.status_byte(), raw.data_byte_1(), raw.data_byte_2(), raw.to_bytes());
+        let bytes_s = (st.status_byte(), st.data_byte_1(), st.data_byte_2(), st.to_bytes());
+        Some((
+            acc_concrete!(&raw) == acc_of(&raw) && bytes_r == (ShortMessage::status_byte(&raw), ShortMessage::data_byte_1(&raw), ShortMessage::data_byte_2(&raw), ShortMessage::to_bytes(&raw)),
+            acc_concrete!(&st) == acc_of(&st) && bytes_s == (ShortMessage::status_byte(&st), ShortMessage::data_byte_1(&st), ShortMessage::data_byte_2(&st), ShortMessage::to_bytes(&st)),
+        ))
+    });
+    if r != Some(Some((true, true))) {
+        crate::viol!(
+            rep,
+            format!("C02:concrete-call-differs-from-trait-call:{}", type_name(s)),
+            format!("({:#04x},{},{}): calling the ShortMessage methods with method syntax on RawShortMessage / StructuredShortMessage gives different results than through the trait (equal: {:?}) - an inherent method shadows a trait method", s, d1, d2, r),
+            json!({"kind":"triple","carrier":"concrete","status":s,"d1":d1,"d2":d2})
+        );
+    }
+}
+
 /// Compares the accessor results with the table-derived expectation; returns the name of the
 /// first disagreeing accessor.
 pub fn compare(a: &Acc, s: u8, d1: u8, d2: u8) -> Option<(&'static str, String)> {
@@ -196,7 +242,8 @@ pub fn run(cfg: &Cfg, rep: &mut Report) {
                     check_carrier::<RawShortMessage>("Raw", s, d1, d2, rep);
                     check_carrier::<StructuredShortMessage>("Structured", s, d1, d2, rep);
                     check_carrier::<Foreign>("Foreign", s, d1, d2, rep);
-                    evals += 3;
+                    concrete_vs_trait(s, d1, d2, rep);
+                    evals += 4;
                     if d1 != 0 || d2 != 0 {
                         nontrivial += 1;
                     }
